@@ -1,8 +1,8 @@
 package rules
 
 import (
-	"strings"
 	"cvcheck/internal/core"
+	"strings"
 
 	"golang.org/x/tools/go/ssa"
 )
